@@ -33,11 +33,13 @@ MALFORMED = ["abc", "1:", ":2", "1:2:3", " * ", "**", "12a", "1:b"]
 
 
 def anchors():
-    from simfile.timing import TimingData
-    from simfile.timing._private import timingsource
-    from simfile.timing import displaybpm as D
+    from ..core import pick
 
-    return {"timing_source": timingsource.timing_source, "TimingData.__init__": TimingData.__init__, "displaybpm": D.displaybpm}
+    return pick(
+        "simfile.timing._private.timingsource:timing_source",
+        "simfile.timing:TimingData.__init__",
+        "simfile.timing.displaybpm:displaybpm",
+    )
 
 
 def code_of(states):
